@@ -17,7 +17,7 @@ def _pathlang():
     from mc.ref import pathlang as R
     alpha = '@[]:/.>-0A '
     n = bad = 0
-    for k in range(0, 7):
+    for k in range(0, 6):
         for t in itertools.product(alpha, repeat=k):
             s = ''.join(t)
             n += 1
